@@ -139,6 +139,15 @@ check("C12", "WriteLayout!OrdersAgree (TLC); all pairs of writer configurations 
       "of the two re-reads validated by Trace_RoundTrip!TPair (TLC)",
       RT + "C12: for every pair of configurations of equal precision the re-read contents are equal apart from VERS and WRAP.",
       TRUSTED, "DESIGN.md 4 C12")
+check("C18", "Views.tla decision tables (index unit over 256 unit-class combinations, to_csv header rows over 27 option "
+      "combinations, JSON value classes, Excel header rows) enumerated and sanity-checked by TLC; every export of LASFiles "
+      "covering the statement's value classes observed and validated by Trace_Views (TLC)",
+      "Model checking of the decision tables + trace validation: TLC enumerates every unit-class combination and every "
+      "to_csv option combination with the expected outcome; each is exercised on real lasio (units spelled from the recognised "
+      "sets in any case), and to_json (strict parser), to_csv (x csv dialects), to_excel (re-opened with openpyxl), df() and "
+      "set_data_from_df(df()) are observed on objects with int/float/text/NaN/None header values, float and text curves, NaN "
+      "samples, duplicate and blank mnemonics, the empty LASFile and corpus files; TLC evaluates the expectations of Views.tla "
+      "on every observation.", TRUSTED, "DESIGN.md 4 C18")
 
 
 def main():
